@@ -434,7 +434,10 @@ class Path(typing.Generic[H]):
 
         # fast path for single line text.  `encoding` and `errors` are ignored
         # in this case for now because `bytes` is not a supported argument type.
-        if "\n" not in data and "\r" not in data:
+        #
+        # Text with a NUL character must not take it: a shell drops NUL from
+        # its command line.  Sent through the tty to `tee` it arrives intact.
+        if "\n" not in data and "\r" not in data and "\0" not in data:
             self.host.exec0("printf", "%s", data, linux.RedirStdout(self))
             return len(data)
 
